@@ -19,24 +19,24 @@ _C09 = re.compile(r"fmd_restored|opens_fn_wb|^_write_common_metadata|^write_mult
                   r"^write_common_metadata\[.*\]\.(file_is_magic|footer\.(row_groups_are_all|has_no_row_groups|num_rows))|out_of_reach")
 _C19 = re.compile(r"^write_multi\[append=True.*\]\.closing\.(metadata_then|summary_gets)|^write_row_groups(\[multi\]\.(steps_in_order|appends_through)"
                   r"|\.handle_refreshed)|^write\.dispatch\.append_goes|out_of_reach")
-_EMPTY_C07 = re.compile(r"^write_multi\[append=True,partition_on=no\]\.(no_attr_of_None\[rg\.columns\]|row_group_appended_is_not_None\[.*\]|part\.file_opened_is_written_as_a_part_file\[any frame\])$")
 SELECT = {
     "C02": lambda n: True,
     "C07": lambda n: _C07.search(n) is not None,
     "C09": lambda n: _C09.search(n) is not None and "raises_only_before" not in n,
     "C19": lambda n: _C19.search(n) is not None,
 }
-# known findings: (id, regex over the obligation names it covers).  Each region is exact: the empty-frame obligations are refuted only
-# for len(frame) == 0 (their `[frame with rows]` / non-None siblings are PROVED), the fmd=None run has no other refutation, the
+# known findings: (id, regex over the obligation names it covers).  Each region is exact: make_part_file's `[any frame]` obligation is
+# refuted only for len(data) == 0 (its `[frame with rows]` sibling is PROVED), the fmd=None run has no other refutation.  The write_multi
+# side of the empty-frame finding was repaired in /repo (f7aae56, records fixed-C02-empty-frame-zero-byte-part-file and
+# fixed-C07-empty-frame-append-crashes): write_multi[..].part.file_opened_is_written_as_a_part_file[any frame] / no_attr_of_None[rg.columns]
+# must be PROVED.  The
 # truncation finding was repaired in /repo (4f80931, record fixed-C02-summary-truncated-before-validation): `fixed` records suppress
 # nothing, write_common_metadata[..].raises_only_before_the_file_is_opened[key or value not text] must be PROVED.
 KNOWN = {
     "C02": [
-        (M.FID_EMPTY, re.compile(r"file_is_a_complete_parquet_file\[any frame\]$|part\.file_opened_is_written_as_a_part_file\[any frame\]$|"
-                                 r"^write_multi\[.*partition_on=no\]\.(no_attr_of_None\[rg\.columns\]|row_group_appended_is_not_None\[.*\])$")),
+        (M.FID_EMPTY, re.compile(r"^make_part_file\[.*\]\.file_is_a_complete_parquet_file\[any frame\]$")),
         (M.FID_NOFMD, re.compile(r"^make_part_file\[fmd=None\]\.(footer_serialisation_does_not_raise|write_thrift\.no_iteration_over_None\[obj\.key_value_metadata\])$")),
     ],
-    "C07": [(M.FID_EMPTY_C07, _EMPTY_C07)],
 }
 FUNC = [("make_part_file", "writer.make_part_file"), ("write_common_metadata", "writer.write_common_metadata"),
         ("_write_common_metadata", "api.ParquetFile._write_common_metadata"), ("write_multi", "writer.write_multi"),
